@@ -1,6 +1,7 @@
 import A2lVerif.Lemmas.TypedTop
 import A2lVerif.Lemmas.TypedEqv
 import A2lVerif.Lemmas.TypedParsed
+import A2lVerif.Lemmas.TypedOnce
 /-!
 # C19 — `a2ml_specification!`: typed IF_DATA access round-trips
 
@@ -24,17 +25,20 @@ Summary of what is proved and what is FALSE for the code as it is
    not flagged valid yields `None`.
 3. `conforming_decodes`: content that the interpreter of C18 accepted under `S` decodes to a value, for every `S`
    with `Flat S` and `TagsDistinct S` (both decidable; both hold for every specification that the macro compiles).
-   `store_load_content`: if moreover no member that is not declared `( ... )*` occurs twice (`NoRepeatViolation`),
-   what the decoded value stores is `Sim`ilar to the original and is WRITTEN AS THE SAME TEXT. `Sim_def` below says
+   `store_load_content`: what the decoded value stores is `Sim`ilar to the original and is WRITTEN AS THE SAME TEXT
+   (no member that is not declared `( ... )*` occurs twice in accepted content: `interpreted_no_repeat`, from the
+   multiplicity check that `parse_ifdata_taggedstruct` has since fix 9daacf5). `Sim_def` below says
    precisely what may differ: the order of the items inside one tagged struct (a hash map in Rust; the writer
    sorts by uid) and `Block []` for `Block [None]` as the data of a tagged item without data. Lines, uids, offsets,
    tags, block-ness, values, hex flags are equal. (`incfile` is not modelled.)
 
 FALSE as drafted, each with a concrete input:
-* `store_drops_repeated_member` (CONFIRMED ON THE RUST LIBRARY): `block "IF_DATA" taggedstruct { "X" uint; };` with
-  `/begin IF_DATA X 1 X 2 /end IF_DATA`: the interpreter accepts the block (flagged valid), the typed value keeps only
-  the first `X` (`get_single_optitem` takes `itemlist[0]`), `store_to_ifdata` + write gives `X 1`: load, store and write
-  does NOT reproduce the original content. Corrected statement: `store_load_content` with `NoRepeatViolation`.
+* `old_store_dropped_repeated_member` (CONFIRMED ON THE RUST LIBRARY, FIXED in 9daacf5): `block "IF_DATA" taggedstruct
+  { "X" uint; };` with `/begin IF_DATA X 1 X 2 /end IF_DATA`: the interpreter used to accept the block (flagged valid)
+  with two items `X`; the typed value keeps only the first (`get_single_optitem` takes `itemlist[0]`), `store_to_ifdata`
+  + write gave `X 1`. Now the second `X` is `InvalidMultiplicityTooMany`, the block is not valid, `load_from_ifdata`
+  gives `None` and nothing is dropped (`repeated_member_not_valid`); the theorem is kept as a statement about the
+  generic value that the old interpreter built.
 * `old_fixup_struct_inlined_struct_members` (CONFIRMED ON THE RUST LIBRARY, FIXED in `fixup_struct`): before the fix a
   struct that is a member of a struct used as a member had its members inlined into the parent type, so a
   conforming block for `struct P { struct Q { int; int; }; uint; }` (one level below a tagged item) decoded to `None`.
@@ -269,17 +273,21 @@ theorem conforming_decodes_top {e : Env} (f32 : List Char → Option (List Char)
   obtain ⟨sp, hm, d, s0, s1, hi, rfl⟩ := parseIfdata_valid_inv h
   exact ⟨sp, hm, fun u so eo => conforming_decodes f32 sp ctx s0 s1 d (hall sp hm).1 (hall sp hm).2 hi ctx.line u so eo⟩
 
-/-- **`store_load_content`**: ... and if no member that is not declared `( ... )*` occurs twice in the data, the
-    generic value that the decoded value stores is `Sim`ilar to the original (see `Sim_def` above for what that
+/-- what the interpreter accepts never has two items of a member that is not declared `( ... )*`, at any depth -/
+theorem interpreted_no_repeat {e : Env} (f32 : List Char → Option (List Char)) (S : Spec) (ctx : Ctx) (s s' : PState) (d : Gen)
+    (hF : Flat S) (hS : TagsDistinct S) (h : itemP f32 S ctx e s = .ok d s') : NoRepeatViolation S d :=
+  noRepeatViolation_of_shape S hF hS d (itemP_shape f32 S ctx s d s' h)
+
+/-- **`store_load_content`**: ... and the generic value that the decoded value stores is `Sim`ilar to the original (see `Sim_def` above for what that
     leaves open: the order inside a hash map and `Block []` for `Block [None]`) and is written as the same text, at
     every indent, as a whole block (`top = true`, what `IfData::stringify` calls) and as an item. -/
 theorem store_load_content {e : Env} (f32 : List Char → Option (List Char)) (S : Spec) (ctx : Ctx) (s s' : PState) (d : Gen)
-    (hF : Flat S) (hS : TagsDistinct S) (h : itemP f32 S ctx e s = .ok d s') (hm : NoRepeatViolation S d)
-    (line uid startOff endOff : Nat) :
+    (hF : Flat S) (hS : TagsDistinct S) (h : itemP f32 S ctx e s = .ok d s') (line uid startOff endOff : Nat) :
     ∃ v, typedLoadAt S (makeBlock d line) uid startOff endOff = .ok v ∧
       Sim (typedStore S v) (makeBlock d line) ∧
       ∀ indent, write indent (typedStore S v) = write indent (makeBlock d line) := by
   obtain ⟨v, hv, hsim⟩ := decode_of_shape S hF hS d (itemP_shape f32 S ctx s d s' h) line uid startOff endOff
+  have hm := interpreted_no_repeat f32 S ctx s s' d hF hS h
   refine ⟨v, hv, hsim hm, fun indent => ?_⟩
   exact sim_write indent true _ _ (hsim hm) (uidOk_makeBlock d line (itemP_uidOk h))
 
@@ -289,15 +297,15 @@ theorem store_load_content {e : Env} (f32 : List Char → Option (List Char)) (S
 theorem store_load_content_top {e : Env} (f32 : List Char → Option (List Char)) (S : Spec) (ctx : Ctx)
     (s s' : PState) (g : Gen) (hF : Flat S) (hS : TagsDistinct S)
     (h : parseIfdata f32 [S] ctx e s = .ok (some g, true) s') (b : IfDataBlk) (hb : b.items = some g) (hv : b.valid = true) :
-    ∃ d, g = makeBlock d ctx.line ∧ ∃ v, loadFromIfdata S b = .ok (some v) ∧
-      (NoRepeatViolation S d →
-        (storeToIfdata S v b).valid = true ∧ ∃ g', (storeToIfdata S v b).items = some g' ∧ Sim g' g ∧
-          ∀ indent, write indent g' = write indent g) := by
+    ∃ v, loadFromIfdata S b = .ok (some v) ∧
+      (storeToIfdata S v b).valid = true ∧ ∃ g', (storeToIfdata S v b).items = some g' ∧ Sim g' g ∧
+        ∀ indent, write indent g' = write indent g := by
   obtain ⟨sp, hm, d, s0, s1, hi, rfl⟩ := parseIfdata_valid_inv h
   rw [List.mem_singleton] at hm
   subst hm
   obtain ⟨v, hl, hsim⟩ := decode_of_shape sp hF hS d (itemP_shape f32 sp ctx s0 d s1 hi) ctx.line b.uid b.startOff b.endOff
-  refine ⟨d, rfl, v, by simp only [loadFromIfdata, hv, hb, if_true, hl], fun hno => ⟨rfl, _, rfl, hsim hno, fun indent => ?_⟩⟩
+  have hno := interpreted_no_repeat f32 sp ctx s0 s1 d hF hS hi
+  refine ⟨v, by simp only [loadFromIfdata, hv, hb, if_true, hl], rfl, _, rfl, hsim hno, fun indent => ?_⟩
   exact sim_write indent true _ _ (hsim hno) (uidOk_makeBlock d ctx.line (itemP_uidOk hi))
 
 /-- the hypotheses are satisfiable: `X 0x10 "a" 1.5` under `exSpec` -/
@@ -309,36 +317,44 @@ example : genOf (parseIfdata exF32 [exSpec] exCtx (specialEnv exToks false) {}) 
     some (.block 1 [.taggedUnion [⟨1, 1, 0, 0, ['X'], .block 1 [.int 5 0 16 true, .str 1 ['a'], .float 0 "1.5".toList], false⟩]],
       true) := by rfl
 
-/-! ### FALSE as drafted: a member that is not declared `( ... )*` and occurs twice -/
+/-! ### a member that is not declared `( ... )*` and occurs twice -/
 
 /-- `block "IF_DATA" taggedstruct { "X" uint; };` -/
 def dupSpec : Spec := .taggedStruct [⟨['X'], .int 5, false, false⟩]
 /-- `X 1 X 2 /end IF_DATA` -/
 def dupToks : Array PTok :=
   #[tk 0 ['X'], tk 5 ['1'], tk 0 ['X'], tk 5 ['2'], tk 2 "/end".toList, tk 0 "IF_DATA".toList]
+/-- what the interpreter stored for `X 1 X 2` BEFORE fix 9daacf5 (and flagged valid) -/
 def dupG : Gen :=
   .block 1 [.taggedStruct [⟨1, 1, 0, 0, ['X'], .block 1 [.int 5 0 1 false], false⟩,
                            ⟨1, 2, 0, 0, ['X'], .block 1 [.int 5 0 2 false], false⟩]]
 def dupV : TVal := .struct ⟨1, 0, 1, 1, []⟩ [.opt (some (.struct ⟨1, 1, 0, 0, [.int 0 false]⟩ [.int 1]))]
 
-/-- **FINDING (confirmed on the Rust library)**: the draft "loading, storing and writing IF_DATA that was parsed from
-    text reproduces the original content" is FALSE. `parse_ifdata_taggedstruct` accepts `X 1 X 2` for a member `"X"`
-    that is not declared `( ... )*` (it pushes every occurrence), the block is flagged valid; the generated `parse`
-    takes the first occurrence (`get_single_optitem`: `itemlist[0]`), `load_from_ifdata` returns `Some`; `store`
-    writes one `X`: the file changes from `X 1 X 2` to `X 1` without any diagnostic. -/
-theorem store_drops_repeated_member :
+/-- now: `X 1 X 2` under `taggedstruct { "X" uint; }` is not flagged valid (the content is kept as uninterpreted data),
+    `load_from_ifdata` gives `None`, nothing is decoded and nothing can be dropped -/
+theorem repeated_member_not_valid :
+    (genOf (parseIfdata exF32 [dupSpec] exCtx (specialEnv dupToks false) {})).map (·.2) = some false ∧
+    ∀ g, loadFromIfdata dupSpec ⟨some g, false, 1, 0, 1, 1⟩ = .ok none :=
+  ⟨by decide +kernel, fun g => loadFromIfdata_invalid dupSpec _ rfl⟩
+
+/-- **FINDING (confirmed on the Rust library, fixed in 9daacf5)** about the behaviour BEFORE the fix:
+    `parse_ifdata_taggedstruct` accepted `X 1 X 2` for a member `"X"` that is not declared `( ... )*` (it pushed every
+    occurrence: `dupG`), the block was flagged valid; the generated `parse` takes the first occurrence
+    (`get_single_optitem`: `itemlist[0]`), `load_from_ifdata` returned `Some`; `store` writes one `X`: the file changed
+    from `X 1 X 2` to `X 1` without any diagnostic. The typed code is unchanged: for the generic value `dupG` (which
+    only a hand-built `GenericIfData` can be now) it still behaves like this. -/
+theorem old_store_dropped_repeated_member :
     Flat dupSpec ∧ TagsDistinct dupSpec ∧
-    genOf (parseIfdata exF32 [dupSpec] exCtx (specialEnv dupToks false) {}) = some (dupG, true) ∧
     loadFromIfdata dupSpec ⟨some dupG, true, 1, 0, 1, 1⟩ = .ok (some dupV) ∧
     values true dupG = [.ident ['X'], .int 5 1 false, .ident ['X'], .int 5 2 false] ∧
     values true (typedStore dupSpec dupV) = [.ident ['X'], .int 5 1 false] ∧
     write 0 dupG = " X 1 X 2".toList ∧ write 0 (typedStore dupSpec dupV) = " X 1".toList := by
-  refine ⟨by decide, by decide, by rfl, rfl, by decide, by decide, ?_, ?_⟩
+  refine ⟨by decide, by decide, rfl, by decide, by decide, ?_, ?_⟩
   · rw [write, writeG_render true 0 _ (by simp [dupG, UidOk, UidOkL, UidOkT])]; decide
   · have he : typedStore dupSpec dupV = .block 1 [.taggedStruct [⟨1, 1, 0, 0, ['X'], .block 1 [.int 5 0 1 false], false⟩]] := rfl
     rw [he, write, writeG_render true 0 _ (by simp [UidOk, UidOkL, UidOkT])]; decide
 
-/-- ... and the side condition of the corrected statement is exactly what fails here -/
+/-- ... and `NoRepeatViolation` (which accepted content now always has) is exactly what fails for `dupG` -/
 example : ¬ NoRepeatViolation dupSpec (.taggedStruct [⟨1, 1, 0, 0, ['X'], .block 1 [.int 5 0 1 false], false⟩,
     ⟨1, 2, 0, 0, ['X'], .block 1 [.int 5 0 2 false], false⟩]) := by
   intro h
